@@ -290,7 +290,7 @@ func Worker(t *testing.T) {
 				fmt.Printf("TROUBLE %s\n", r.Trouble)
 				os.Exit(2)
 			}
-			fmt.Printf("HASH %d %s %v\n", i, r.TraceHash, sigs(r))
+			fmt.Printf("HASH %d %s %v %s\n", i, r.TraceHash, sigs(r), r.Inconclusive)
 			if d := os.Getenv("VERIF_DUMP"); d == strconv.Itoa(i) || d == "all" {
 				fmt.Println(strings.Join(r.Trace, "\n"))
 			}
